@@ -134,6 +134,38 @@ theorem pathTr_inv (V acc : Aff) (hV : Invertible V) (hacc : Invertible acc) (ht
     rw [inv_app htr] at this
     exact this.symm
 
+theorem applyTransform_comp (g : LinGrad) (A B : Aff) : (g.applyTransform A).applyTransform B = g.applyTransform (B.mul A) := by
+  simp only [LinGrad.applyTransform, app_mul]
+
+/-- **C02**: `svg._apply_paint` computes the same fill as the colr_to_svg walk (`fillOf`): mapping the points by `U` and then
+by the conjugated transform `U⁻¹;T;U` is mapping them by `T;U` -/
+theorem applyPaintFill_eq_fillOf (U : Aff) (hU : C06.Invertible U) : ∀ (c : CP) (T : Aff), applyPaintFill U T c = fillOf U T c
+  | .solid _ _, _ => rfl
+  | .lin g l, T => by
+    simp only [applyPaintFill, fillOf]
+    congr 2
+    split
+    next h => subst h; rw [Aff.composeLtr2, Aff.mul_id]
+    next h =>
+      rw [applyTransform_comp, Aff.composeLtr3, Aff.composeLtr2]
+      congr 1
+      rw [Aff.mul_assoc', (Aff.mul_inverseEps eps U hU eps_nonneg).2, Aff.mul_id]
+  | .transform m c, T => by
+    simp only [applyPaintFill, fillOf]
+    exact applyPaintFill_eq_fillOf U hU c (T.mul m)
+  | .glyph _ _, _ => rfl
+  | .layers _, _ => rfl
+  | .group _ _, _ => rfl
+
+/-- **C02 (fill of an OT-SVG path)**: the fill `_apply_paint` writes for a paint under any chain of transform paints shows, at the
+viewBox point `U u`, what the COLR-style paint shows at the font-space point `u` -/
+theorem otsvg_fill_correct {α} (E : PixAlg α) (U : Aff) (hU : C06.Invertible U) (c : CP) (f : SFill)
+    (hok : FillOK U Aff.id c) (hf : applyPaintFill U Aff.id c = some f) (u : Pt) :
+    colrRender E c u = fillPix E f (U.app u) := by
+  rw [applyPaintFill_eq_fillOf U hU] at hf
+  have := fill_correct E U hU c Aff.id f id_invertible hok hf u
+  rwa [inv_id_app] at this
+
 mutual
 /-- **C13 (recursive walk)**: for every supported paint graph, every accumulated transform, every point: the
 elements `_colr_v1_paint_to_svg` emits show at `V x` exactly what COLR shows at `x` -/
